@@ -296,7 +296,7 @@ def conformance_stage(kind, variant, params):
         if kind == 'random':
             args = ['random', '--seed', str(params['seed']), '--runs', str(params['runs']), '--ops', str(params['ops']),
                     '--faultp', str(params.get('faultp', 0)), '--ns', str(params.get('ns', 2)), '--np', str(params.get('np', 1)),
-                    '--nw', str(params.get('nw', 1)), '--maxobjs', str(params.get('maxobjs', 10)), '--auto', str(params.get('auto', 0)),
+                    '--nw', str(params.get('nw', 1)), '--maxobjs', str(params.get('maxobjs', 10)), '--auto', str(params.get('auto', 0)), '--clean', str(params.get('clean', 0)),
                     '--out', trace]
         elif kind == 'script':
             args = ['script', '--in', os.path.join(VERIF, params['file']), '--out', trace]
@@ -367,15 +367,31 @@ def conformance_stage(kind, variant, params):
 COV_RE = re.compile(r'^<(\w+) line (\d+), col (\d+) to line (\d+), col (\d+) of module (\w+)>: (\d+):(\d+)', re.M)
 
 
+_info = {}
+
+
+def harness_info(variant):
+    if variant not in _info:
+        _info[variant] = run_harness(variant, ['info'])
+    return _info[variant]
+
+
 def engine_stage(name, tier):
     eng = P.ENGINES[name]
     cfgname = eng['cfg'][tier]
-    key = ['engine', name, cfgname]
+    # The size of an object box in the model must be the real one of the build that replays the behaviours
+    # (it drives the byte threshold of the automatic collection policy): substitute it into the configuration.
+    sz = harness_info(eng['builds'][tier][0]).get('node_box_size', 144)
+    cfgtext = re.sub(r'(?m)^(\s*SZ\s*=\s*)\d+', lambda m: m.group(1) + str(sz), open(os.path.join(SPEC, cfgname)).read())
+    key = ['engine', name, cfgname, hashlib.sha256(cfgtext.encode()).hexdigest()[:12]]
 
     def run(d):
         extra = []
         env = {}
-        rc, out = tlc(eng['module'], cfgname, d, workers=eng.get('workers', 8), extra=extra, env=env, timeout=eng.get('timeout', 3000),
+        cfgpath = os.path.join(d, cfgname)
+        with open(cfgpath, 'w') as fh:
+            fh.write(cfgtext)
+        rc, out = tlc(eng['module'], cfgpath, d, workers=eng.get('workers', 8), extra=extra, env=env, timeout=eng.get('timeout', 3000),
                       simulate=eng.get('simulate', {}).get(tier), heap=eng.get('heap', '16g'))
         txt = open(out, errors='replace').read()
         res = {'engine': name, 'cfg': cfgname, 'rc': rc}
@@ -503,7 +519,7 @@ def run_check(pid, tier, seed):
         name = r['engine']
         if not r.get('ok'):
             # the specification itself violates an invariant / property: decide in DESIGN, never silently pass
-            print('SPEC-VIOLATION engine=%s (see %s)' % (name, os.path.join(r.get('_dir', stage_dir(['engine', name, r['cfg']])), 'tlc.out')))
+            print('SPEC-VIOLATION engine=%s (see %s)' % (name, os.path.join(r.get('_dir', '.cache'), 'tlc.out')))
             print(r.get('tail', '')[-3000:])
             raise ToolError('TLC reported an error in engine %s' % name)
         for need in P.ENGINES[name].get('must_cover', []):
